@@ -16,7 +16,7 @@ type Board struct {
 	STM            Color
 	EnPassant      Square
 	Castles        Castles
-	FiftyCnt       Depth
+	FiftyCnt       int16
 }
 
 func StartPos() *Board {
@@ -62,8 +62,8 @@ var hashEnable = [2]Hash{0, 0xffffffffffffffff}
 type Reverse uint64
 
 const (
-	fiftyCntMask        = Reverse(0x00000000000000ff)
-	fiftyCntShift       = 0
+	fiftyCntMask        = Reverse(0x0000ffff00000000)
+	fiftyCntShift       = 32
 	castlingChangeMask  = Reverse(0x0000000000000f00)
 	castlingChangeShift = 8
 	epChangeMask        = Reverse(0x000000000003f000)
@@ -72,8 +72,10 @@ const (
 	captureShift        = 18
 )
 
-func (r Reverse) fiftyCnt() Depth       { return Depth((r & fiftyCntMask) >> fiftyCntShift) }
-func (r *Reverse) setFiftyCnt(fc Depth) { *r = (*r & ^fiftyCntMask) | Reverse(fc)<<fiftyCntShift }
+func (r Reverse) fiftyCnt() int16 { return int16((r & fiftyCntMask) >> fiftyCntShift) }
+func (r *Reverse) setFiftyCnt(fc int16) {
+	*r = (*r & ^fiftyCntMask) | Reverse(uint16(fc))<<fiftyCntShift
+}
 func (r Reverse) castlingChange() Castles {
 	return Castles((r & castlingChangeMask) >> castlingChangeShift)
 }
